@@ -104,3 +104,29 @@ package parsepath
 //@ func init
 //@   ensures[C19] forall(k, uint8, has(escapes, k) == (k == 97 || k == 98 || k == 102 || k == 110 || k == 114 || k == 116 || k == 118 || k == 92 || k == 39 || k == 34 || k == 63))
 //@   ensures[C19] escapes[97] == 7 && escapes[98] == 8 && escapes[102] == 12 && escapes[110] == 10 && escapes[114] == 13 && escapes[116] == 9 && escapes[118] == 11 && escapes[92] == 92 && escapes[39] == 39 && escapes[34] == 34 && escapes[63] == 63
+
+// C19 (evaluation returns exactly the addressed value): for a path of well-formed steps (kinds Root .. AnyExpand, which is
+// all the protopath constructors and ParsePath produce), a successful evaluation returns one value per step, and each
+// value is obtained from the previous one by exactly that step: the root value of m for the root step, the field of
+// the previous message for a field access, the element at the index (which is in range) for a list index, the entry
+// under the key (which is present) for a map index, the same value for an Any expansion. pvMsg / msgField / listAt /
+// mapAt / stepKind ... are the uninterpreted reflection primitives of /verif/stubs/protoreflect.spec.
+//@ func PathValues
+//@   requires m != nil
+//@   requires forall(k, 0 <= k && k < len(p) ==> 1 <= stepKind(p[k]) && stepKind(p[k]) <= 6)
+//@   modifies *
+//@   ghostparam i Int
+//@   ensures[C19] err == nil ==> len(result0.Values) == len(p) && len(result0.Path) == len(p)
+//@   ensures[C19] err == nil && 0 <= i && i < len(p) ==> stepKind(p[i]) != 3 && (stepKind(p[i]) == 1 ==> i == 0)
+//@   ensures[C19] err == nil && 0 < i && i < len(p) && stepKind(p[i]) == 2 ==> same(result0.Values[i], msgField(pvMsg(result0.Values[i - 1]), fdNum(stepFD(p[i]))))
+//@   ensures[C19] err == nil && 0 < i && i < len(p) && stepKind(p[i]) == 4 ==> 0 <= stepIdx(p[i]) && stepIdx(p[i]) < listLen(pvList(result0.Values[i - 1])) && same(result0.Values[i], listAt(pvList(result0.Values[i - 1]), stepIdx(p[i])))
+//@   ensures[C19] err == nil && 0 < i && i < len(p) && stepKind(p[i]) == 5 ==> pvValid(result0.Values[i]) && same(result0.Values[i], mapAt(pvMap(result0.Values[i - 1]), stepKey(p[i])))
+//@   ensures[C19] err == nil && 0 < i && i < len(p) && stepKind(p[i]) == 6 ==> same(result0.Values[i], result0.Values[i - 1])
+//@   loop 1 assigns v
+//@   loop 1 invariant (ref(v.Path) == 0 || loopfresh(v.Path)) && (ref(v.Values) == 0 || loopfresh(v.Values))
+//@   loop 1 invariant len(v.Values) == rangeindex + 1 && len(v.Path) == rangeindex + 1 && (rangeindex >= 0 ==> same(cursor, v.Values[rangeindex]))
+//@   loop 1 invariant[C19] 0 <= i && i <= rangeindex ==> stepKind(p[i]) != 3 && (stepKind(p[i]) == 1 ==> i == 0)
+//@   loop 1 invariant[C19] 0 < i && i <= rangeindex && stepKind(p[i]) == 2 ==> same(v.Values[i], msgField(pvMsg(v.Values[i - 1]), fdNum(stepFD(p[i]))))
+//@   loop 1 invariant[C19] 0 < i && i <= rangeindex && stepKind(p[i]) == 4 ==> 0 <= stepIdx(p[i]) && stepIdx(p[i]) < listLen(pvList(v.Values[i - 1])) && same(v.Values[i], listAt(pvList(v.Values[i - 1]), stepIdx(p[i])))
+//@   loop 1 invariant[C19] 0 < i && i <= rangeindex && stepKind(p[i]) == 5 ==> pvValid(v.Values[i]) && same(v.Values[i], mapAt(pvMap(v.Values[i - 1]), stepKey(p[i])))
+//@   loop 1 invariant[C19] 0 < i && i <= rangeindex && stepKind(p[i]) == 6 ==> same(v.Values[i], v.Values[i - 1])
